@@ -128,26 +128,30 @@ def merge_cases(dst: dict, src: dict) -> None:
 # --------------------------------------------------------------------------------------------
 # trace validation of observed IR projections
 # --------------------------------------------------------------------------------------------
-def validate_projections(ctx, projs: dict, tag: str = "trace") -> tuple:
-    """projs: json(o) -> detail(count).  Returns (examined, {index: [broken invariants]}, keys in file order)."""
+def validate_projections(ctx, projs: dict, tag: str = "trace", batch: int = 20000) -> tuple:
+    """projs: json(o) -> detail(count).  Returns (examined, {index: [broken invariants]}, keys in file order).
+    The observed states are handed to TLC in batches (one JVM start per batch keeps the heap small)."""
     keys = list(projs)
-    if not keys:
-        return 0, {}, keys
-    path = os.path.join(ctx.scratch, f"{tag}.json")
-    with open(path, "w") as f:
-        f.write('{"obs":[')
-        f.write(",".join(keys))
-        f.write("]}")
-    res = ctx.tlc(TRACE, TRACE_CFG, tag=tag, timeout=3000, env={"TRACE_FILE": path}, deadlock=False, heap=HEAP, workers=TLC_WORKERS)
-    if not res.ok:
-        raise MachineryError(f"trace validation failed to run: rc={res.returncode} {res.errors[:2]}\n{res.tail(25)}")
-    if res.distinct != len(keys):
-        raise MachineryError(f"trace validation examined {res.distinct} of {len(keys)} observed states")
-    bad = {}
-    for rec in res.records():
-        if isinstance(rec, list) and rec and rec[0] == "bad":
-            bad[rec[1] - 1] = rec[2]
-    return res.distinct, bad, keys
+    bad, examined = {}, 0
+    for b0 in range(0, len(keys), batch):
+        part = keys[b0 : b0 + batch]
+        path = os.path.join(ctx.scratch, f"{tag}-{b0 // batch}.json")
+        with open(path, "w") as f:
+            f.write('{"obs":[')
+            f.write(",".join(part))
+            f.write("]}")
+        res = ctx.tlc(TRACE, TRACE_CFG, tag=f"{tag}-{b0 // batch}", timeout=3000, env={"TRACE_FILE": path}, deadlock=False, heap=HEAP, workers=TLC_WORKERS)
+        if not res.ok:
+            raise MachineryError(f"trace validation failed to run: rc={res.returncode} {res.errors[:2]}\n{res.tail(25)}")
+        if res.distinct != len(part):
+            raise MachineryError(f"trace validation examined {res.distinct} of {len(part)} observed states")
+        examined += res.distinct
+        for rec in res.records():
+            if isinstance(rec, list) and rec and rec[0] == "bad":
+                bad[b0 + rec[1] - 1] = rec[2]
+        os.remove(path)
+        os.remove(res.out_path)
+    return examined, bad, keys
 
 
 # --------------------------------------------------------------------------------------------
